@@ -231,8 +231,8 @@ def main():
     res = ck.step_generate('Gen_C09', TARGETS)
     if res is not None:
         ck.step_prove('P_C09')
-    n = 1600 if ck.thorough() else 80
-    goals = run_cases(ck, res, n, 24 if ck.thorough() else 6)
+    n = 8000 if ck.thorough() else 80
+    goals = run_cases(ck, res, n, 60 if ck.thorough() else 6)
     if res is not None:
         ck.step_interval_goals('corr', goals)
     if ck.broken and not ck.failures:
